@@ -351,12 +351,23 @@ func vCanonPayload(cmd string, data []byte) string {
 					Custom int `json:"custom_event_data"`
 				} `json:"harvest_limits"`
 			} `json:"event_harvest_config"`
+			Util struct {
+				Vendors struct {
+					Docker struct {
+						ID string `json:"id"`
+					} `json:"docker"`
+				} `json:"vendors"`
+			} `json:"utilization"`
 		}
 		if json.Unmarshal(data, &arr) != nil || len(arr) != 1 {
 			return bad
 		}
 		a := arr[0]
-		return fmt.Sprintf("CON[name=%s,host=%s,lang=%s,span=%d,log=%d,custom=%d]", strings.Join(a.AppName, ";"), a.Host, a.Language, a.EHC.HL.Span, a.EHC.HL.Log, a.EHC.HL.Custom)
+		docker := a.Util.Vendors.Docker.ID
+		if docker == "" {
+			docker = "-"
+		}
+		return fmt.Sprintf("CON[name=%s,host=%s,lang=%s,span=%d,log=%d,custom=%d,docker=%s]", strings.Join(a.AppName, ";"), a.Host, a.Language, a.EHC.HL.Span, a.EHC.HL.Log, a.EHC.HL.Custom, docker)
 	}
 	return bad
 }
@@ -608,8 +619,17 @@ func vOutcome(s string) collector.RPMResponse {
 
 func vConnectBody(t []string) string {
 	if b, ok := vKV(t, "bad"); ok {
-		if b == "malformed" {
+		switch b {
+		case "malformed":
 			return `{"agent_run_id":`
+		case "numid": // a run id of the wrong JSON type
+			return `{"agent_run_id":12345}`
+		case "objid":
+			return `{"agent_run_id":{"id":"r1"}}`
+		case "nullid":
+			return `{"agent_run_id":null,"zip":"zap"}`
+		case "array":
+			return `["r1"]`
 		}
 		return `{"zip":"zap"}`
 	}
@@ -883,8 +903,37 @@ func vProcOp(t []string) string {
 		if !v.tick() { // utilization
 			return "stuck"
 		}
+		// the daemon's own utilization data has a vendors hash, as on a cloud / container host (none is detected in the
+		// sandbox); every connect payload starts from a copy of it.  The processor goroutine is parked between ticks.
+		if v.p.util != nil {
+			json.Unmarshal([]byte(`{"vendors":{"aws":{"instanceId":"i-0verif","instanceType":"t2.verif","availabilityZone":"verif-1a"}}}`), v.p.util)
+		}
 		vProc = v
 		return "ok"
+	}
+	if op == "apphostile" {
+		// proc apphostile sq=<n>: the run-creation step of processConnectAttempt (NewAppHarvest, on the processor goroutine)
+		// for an application whose App message uses infinite tracing and announces the span queue size n
+		sq, _ := strconv.ParseUint(vKVor(t, "sq", "0"), 10, 64)
+		info := &AppInfo{License: "LICH", Appname: "hostile", AgentLanguage: "php", Hostname: "h", TraceObserverHost: "127.0.0.1",
+			TraceObserverPort: 1, SpanQueueSize: sq}
+		crashed := 0
+		func() {
+			defer func() {
+				if r := recover(); r != nil {
+					crashed = 1
+				}
+			}()
+			app := NewApp(info)
+			app.connectReply = &ConnectReply{}
+			app.HarvestTrigger = func(chan HarvestType, chan bool) {}
+			ah := NewAppHarvest(AgentRunID("rhostile"), app, NewHarvest(time.Now(), app.connectReply.EventHarvestConfig.EventConfigs), make(chan ProcessorHarvest, 1))
+			if ah.TraceObserver != nil {
+				ah.TraceObserver.Shutdown(50 * time.Millisecond)
+			}
+			close(ah.trigger)
+		}()
+		return fmt.Sprintf("crash=%d", crashed)
 	}
 	v := vProc
 	if v == nil {
@@ -956,6 +1005,9 @@ func vProcOp(t []string) string {
 			Hostname: vKVor(t, "host", "h"), HighSecurity: vKVor(t, "hs", "0") == "1",
 			Settings: map[string]interface{}{"newrelic.distributed_tracing_enabled": vKVor(t, "dt", "0") == "1"},
 			Environment: JSONString(`[]`), Labels: JSONString(`[]`)}
+		if d := vKVor(t, "docker", "-"); d != "-" {
+			info.DockerId = d
+		}
 		info.AgentEventLimits.SpanEventConfig.Limit = n("span", 10000)
 		info.AgentEventLimits.LogEventConfig.Limit = n("log", 10000)
 		info.AgentEventLimits.CustomEventConfig.Limit = n("custom", 30000)
